@@ -90,6 +90,10 @@ static int flushData(scpi_t * context) {
 static size_t writeDelimiter(scpi_t * context) {
     if (context->output_count > 0) {
         return writeData(context, ",", 1);
+    } else if (context->separator_pending) {
+        /* first result of this command and some previous command already responded */
+        context->separator_pending = FALSE;
+        return writeData(context, ";", 1);
     } else {
         return 0;
     }
@@ -135,12 +139,9 @@ static scpi_bool_t processCommand(scpi_t * context) {
     const scpi_command_t * cmd = context->param_list.cmd;
     lex_state_t * state = &context->param_list.lex_state;
     scpi_bool_t result = TRUE;
-    scpi_bool_t is_query = context->param_list.cmd_raw.data[context->param_list.cmd_raw.length - 1] == '?';
 
-    /* conditionally write ; */
-    if(!context->first_output && is_query) {
-        writeData(context, ";", 1);
-    }
+    /* ; is written together with the first result of this command */
+    context->separator_pending = !context->first_output;
 
     context->cmd_error = FALSE;
     context->output_count = 0;
@@ -157,12 +158,14 @@ static scpi_bool_t processCommand(scpi_t * context) {
         } else {
             if (context->cmd_error) {
                 result = FALSE;
-            } else {
-                if(context->first_output && is_query) {
-                    context->first_output = FALSE;
-                }
             }
         }
+    }
+
+    /* the command produced a response message unit */
+    context->separator_pending = FALSE;
+    if (context->output_count > 0) {
+        context->first_output = FALSE;
     }
 
     /* set error if command callback did not read all parameters */
